@@ -67,6 +67,10 @@ def classify_exc(e):
     msg = str(e)
     if n in REJECT_TYPES:
         return "reject"
+    if n == "XlaRuntimeError" and any(f"exceptions.{t}" in msg or f"{t}:" in msg for t in REJECT_TYPES):
+        return "reject"     # documented rejection raised inside a jax callback
+    if n == "ValueError" and "batch sizes of the quantum script operations do not match" in msg:
+        return "reject"     # explicit refusal: broadcast=True shifts on a tape that is already batched with another size
     if n == "TypeError" and "forward-mode autodiff (jvp) to a custom_vjp" in msg:   # jax's own documented limitation (device_vjp + jacfwd)
         return "reject"
     if n == "ValueError":
@@ -236,11 +240,11 @@ def tape_jac_to_matrix(jac, nmeas, ntrain):
 
 # ------------------------------------------------------------------------------------------------- the check
 class Judge:
-    def __init__(self, ctx, spec, x, desc, flags=None):
-        self.ctx, self.spec, self.x, self.desc, self.flags = ctx, spec, x, desc, flags
+    def __init__(self, ctx, spec, x, desc, flags=None, probe=None):
+        self.ctx, self.spec, self.x, self.desc, self.flags, self.probe = ctx, spec, x, desc, flags, probe
 
     def mech(self, kind, iface, cfgname, default, exc=None):
-        m = mech_for(kind, iface, cfgname, self.spec, self.flags, exc) if self.flags is not None else None
+        m = mech_for(kind, iface, cfgname, self.spec, self.flags, exc, self.probe) if self.flags is not None else None
         return m or default
 
     def compare(self, monitor, cfgname, J, Jref, bound, iface, extra=None):
@@ -309,7 +313,7 @@ ADJOINT_FAMILY = ("adjoint", "device", "compute_derivatives", "compute_vjp", "ad
 PS_FAMILY = ("ps", "param_shift", "best-ps")
 
 
-def mech_for(kind, iface, cfgname, spec, flags, exc=None):
+def mech_for(kind, iface, cfgname, spec, flags, exc=None, probe=None):
     """Mechanism tag for a failure (wrong value / crash) of configuration cfgname, computed from the circuit content:
     * adjoint family
       - a multi-parameter operation without trainable parameters reaches the adjoint kernel (all-constant Rot/CRot/U3, or the
@@ -339,7 +343,9 @@ def mech_for(kind, iface, cfgname, spec, flags, exc=None):
                 if len(t) >= 2:
                     if not any(t) or (g["name"] == "U2" and not t[1]) or (g["name"] == "U3" and not t[0] and not t[2]):
                         return "adjoint:multiparam-op-shifts-param-index"
-            obs_params = any(m["kind"] != "probs" and m["obs"][0] in ("herm", "sum") for m in spec["meas"])
+            if probe is not None and probe():
+                return "adjoint:multiparam-op-shifts-param-index"
+            obs_params = any(m["kind"] != "probs" and m["obs"][0] in ("herm", "sum", "proj") for m in spec["meas"])
             if nonstandard_wires(spec) and (nontr or obs_params):
                 return "adjoint:map_to_standard_wires-resets-trainable"
         if base.startswith(PS_FAMILY) or base == "best":
@@ -349,6 +355,8 @@ def mech_for(kind, iface, cfgname, spec, flags, exc=None):
                 return "ps-broadcast:symbolic-op-batch_size-none"
             if base == "ps-maxdiff2" and ename == "NonDifferentiableError":
                 return "autograd-maxdiff2:arraybox-in-backward"
+            if base == "ps-maxdiff2" and kind == "wrong" and probe is not None and probe("nocache"):
+                return "c05-cache-collision:2pi-shifted-tape-served-from-cache"
         if fam == "torch" and base == "backprop" and "'numpy.ndarray' and 'Tensor'" in msg:
             return "torch-backprop:numpy-const-times-tensor"
     except Exception:  # noqa: BLE001
@@ -473,7 +481,26 @@ def run(ctx):
         else:
             subset = list(range(n_in))
         Jref = Jx[:, subset]
-        judge = Judge(ctx, spec, x, desc, gate_flags_from_inputs(C, spec, subset))
+        flags_x = gate_flags_from_inputs(C, spec, subset)
+
+        def probe(what="multiparam", flags_x=flags_x):
+            """differential / structural probes used only to NAME the mechanism of an already detected failure"""
+            if spec.get("batch"):
+                return False
+            th = R.flat_gate_params(x)
+            tr = [k for k, f in enumerate([f for fl in flags_x for f in fl]) if f]
+            if what == "multiparam":
+                tape = C.make_tape(qp, spec, th, trainable=tr)
+                cfg = qp.devices.ExecutionConfig(gradient_method="adjoint", use_device_gradient=True)
+                (t2,), _ = dev.preprocess_transforms(cfg)((tape,))
+                return any(op.num_params > 1 for op in t2.operations)
+            if what == "nocache":
+                qn = qp.QNode(qf, dev, interface="autograd", diff_method="parameter-shift", max_diff=2, cache=False)
+                J = jac_autograd(qp, qn, x, mode, subset, nmeas)
+                return J.shape == Jref.shape and bool(np.all(np.abs(J - Jref) <= tol))
+            return False
+
+        judge = Judge(ctx, spec, x, desc, flags_x, probe)
         qf = C.make_qfunc(qp, spec, mode)
         extra = {"mode": mode, "subset": subset}
         f0 = R.f(x)
